@@ -100,14 +100,18 @@ def mutation() -> str:
 
 def thorough() -> str:
     d = os.path.join(VERIF, 'evidence', 'thorough')
-    out = ['| property | simulated runs | wall s | runs/hour | distinct non-trivial runs | distinct states (measure in the evidence file) | faults / schedule events fired | new violations | known findings hit |', '|---|---|---|---|---|---|---|---|---|']
+    out = ['| property | simulated runs | wall s | runs/hour | distinct non-trivial runs | distinct states (measure in the evidence file) | faults and schedule events that actually fired (chunk/file deliveries, truncations, decode faults, kill/errno plans, interleavings, finalizers, reopen points, lazy parses; per-kind counts in the evidence file) | new violations | known findings hit |', '|---|---|---|---|---|---|---|---|---|']
     if not os.path.isdir(d):
         return '(no thorough-tier evidence copied yet)'
     for fn in sorted(os.listdir(d)):
         e = json.load(open(os.path.join(d, fn)))
         c = e['coverage']
         probes = c.get('probes', {})
-        fired = sum(v for k, v in probes.items() if k.startswith('fired_') or k in ('fault_plans_executed', 'interleavings_executed', 'finalizers_by_drop', 'collect_steps', 'reparse_phases', 'saves_after_failed_parse'))
+        keys = ('fault_plans_executed', 'interleavings_executed', 'finalizers_by_drop', 'collect_steps', 'reparse_phases', 'saves_after_failed_parse',
+                'delivery_chunks', 'delivery_file', 'delivery_lines', 'empty_chunks', 'fault_decode_fired', 'fault_truncation', 'file_short_reads',
+                'iterators_alive_across_mutation', 'judged_reopens', 'blocks_parsed_lazily', 'saves', 'poisoned_view_access_raised', 'collapse_one_calls',
+                'chain_readd', 'collapses', 'overflow_rejected', 'pre_accessed_views')
+        fired = sum(v for k, v in probes.items() if k.startswith('fired_') or k in keys)
         out.append(f"| {e['property_id']} | {c['evaluations']} | {round(e['wall_s'])} | {c.get('runs_per_hour', '')} | {c['distinct_nontrivial']} | {c['distinct_states']} | {fired or '–'} | {e.get('violations', 0) if isinstance(e.get('violations', 0), int) else len(e.get('violations'))} | {sum(c.get('known_findings_seen', {}).values())} |")
     return '\n'.join(out)
 
